@@ -2,9 +2,9 @@ package sim
 
 import (
 	"context"
-	"runtime"
 	"encoding/json"
 	"fmt"
+	"runtime"
 	"strconv"
 	"strings"
 	"time"
@@ -34,10 +34,14 @@ type Monitors struct {
 	pollIdx       int
 
 	// deliveries
-	inflight  map[string]int  // receiver name -> log index delivered, not acked
-	unacked   map[string]int  // receiver name -> index that must be delivered again next
-	advers    map[string]bool // an adversarial cursor move happened for this receiver
-	recvTopic map[string]string
+	inflight    map[string]int  // receiver name -> log index delivered, not acked
+	readVer     map[string]uint // receiver name -> record version the store answered with for the delivery in flight
+	entryWrite  map[int][2]int  // outbox ordinal -> (run, number of the write it announces, from 1)
+	evWrite     map[int][2]int  // log index -> (run, number of the write the event announces)
+	filteredAck bool
+	unacked     map[string]int  // receiver name -> index that must be delivered again next
+	advers      map[string]bool // an adversarial cursor move happened for this receiver
+	recvTopic   map[string]string
 
 	// relay
 	sentOK map[int]bool // outbox ordinal -> accepted by the streamer
@@ -55,6 +59,7 @@ type Monitors struct {
 	// hooks (C14)
 	hookOK map[string]bool // "rs/run/version" -> hook returned nil
 
+	tainted     bool
 	staleReads  int
 	dups        int
 	handleStale bool
@@ -64,7 +69,7 @@ type Monitors struct {
 }
 
 func newMonitors(w *World) *Monitors {
-	return &Monitors{w: w, inflight: map[string]int{}, unacked: map[string]int{}, advers: map[string]bool{}, recvTopic: map[string]string{},
+	return &Monitors{w: w, entryWrite: map[int][2]int{}, evWrite: map[int][2]int{}, readVer: map[string]uint{}, inflight: map[string]int{}, unacked: map[string]int{}, advers: map[string]bool{}, recvTopic: map[string]string{},
 		sentOK: map[int]bool{}, pubOK: map[string]int{}, awaits: map[string]int{}, lastFailure: map[string]string{}, sawTimer: map[string]bool{},
 		errCount: map[string]int{}, hookOK: map[string]bool{}, NonTrivial: map[string]bool{}}
 }
@@ -168,6 +173,12 @@ func (m *Monitors) pathName() string {
 	if m.w.staleInOp {
 		t += "+stale-read"
 	}
+	if strings.HasPrefix(m.opTok, "pol:") {
+		st, _ := strconv.Atoi(strings.Split(m.opTok, ":")[1])
+		if len(m.w.Cfg.TimeoutsAt(st)) > 1 {
+			t += "+two-timeouts"
+		}
+	}
 	return t
 }
 
@@ -268,6 +279,7 @@ func (m *Monitors) onStore(rr *runRec, c *workflow.Record) {
 	path := m.writerKind() + " in " + m.pathName()
 	m.opStores++
 	m.writes = append(m.writes, *c)
+	m.entryWrite[w.outN] = [2]int{rr.ord, len(rr.versions) + 1}
 	if len(rr.versions) == 0 {
 		if c.Meta.Version != 1 {
 			m.violate("C16", "version-starts-at-1", "first-version-not-1", fmt.Sprintf("first write of a run has version %d", c.Meta.Version))
@@ -285,6 +297,11 @@ func (m *Monitors) onStore(rr *runRec, c *workflow.Record) {
 		m.violate("C16", "identity", "identity-changed via "+path, fmt.Sprintf("write changed name/foreign ID/run ID/createdAt: %v -> %v", recStr(w, p), recStr(w, c)))
 	}
 	if c.Meta.Version != p.Meta.Version+1 {
+		if strings.Contains(path, "+") {
+			// version numbering broken by a re-entrant / stale-read / stale-handle write (reported under its own signature):
+			// version-based reasoning about this history is void from here on
+			m.tainted = true
+		}
 		m.violate("C16", "version-plus-one", "version-step via "+path, fmt.Sprintf("version %d written over persisted version %d (run r%d)", c.Meta.Version, p.Meta.Version, rr.ord))
 	}
 	if c.UpdatedAt.Before(p.UpdatedAt) {
@@ -405,6 +422,13 @@ func (m *Monitors) onInvoke(inv Invocation) {
 			if uint(evv) != inv.Persisted.Meta.Version {
 				m.violate("C04", "acted-only-when-current", "acted-on-event-v"+cmp(evv, int(inv.Persisted.Meta.Version))+"-persisted in "+m.pathName(),
 					fmt.Sprintf("%s function invoked for event e%d carrying version %d while run r%d is persisted at version %d (record handed to it: v%d)", inv.Kind, idx, evv, inv.Run, inv.Persisted.Meta.Version, inv.SeenVer))
+			}
+			// … independently of the version numbers: the event announces the k-th write of the run; it is old when the run has more writes
+			if aw, ok := m.evWrite[idx]; ok {
+				if rr, ok2 := w.byID[inv.Persisted.RunID]; ok2 && aw[1] < len(rr.versions) && !m.tainted {
+					m.violate("C04", "acted-only-when-current", "acted-on-old-announcement in "+m.pathName(),
+						fmt.Sprintf("%s function invoked for event e%d, which announces write #%d of run r%d, while the run has had %d writes (event version %d, persisted version %d)", inv.Kind, idx, aw[1], inv.Run, len(rr.versions), evv, inv.Persisted.Meta.Version))
+				}
 			}
 			if inv.Persisted.Status != inv.Status {
 				m.violate("C06", "status-topic-consumer", inv.Kind+"-invoked-at-other-status",
@@ -578,6 +602,7 @@ func (m *Monitors) onRecv(name string, idx int, ev *workflow.Event) {
 		m.violate("C07", "failure-redelivers", "unacked-event-not-redelivered", fmt.Sprintf("%s: event e%d was not acknowledged, next delivery is e%d", m.w.sim.Tok[name], want, idx))
 	}
 	delete(m.unacked, name)
+	delete(m.readVer, name)
 	m.inflight[name] = idx
 	m.opFailed = false
 	m.opFnErr = ""
@@ -592,7 +617,16 @@ func (m *Monitors) onAck(name string, idx int) {
 		m.violate("C07", "ack-after-success-only", "ack-after-failure:"+strings.SplitN(w.sim.Tok[name], ":", 2)[0],
 			fmt.Sprintf("%s acknowledged e%d although its handling failed (fault plan %v, failing outcome %q, lease lost %v)", w.sim.Tok[name], idx, w.env.Faults, m.opFnErr, m.opLeaseLost))
 	}
-	// C04: an announcement newer than what the store returned must not be acknowledged; an older one must be acknowledged untouched
+	// C04: an announcement newer than what the store returned must be retried, never acknowledged
+	if v, ok := m.readVer[name]; ok {
+		evv, _ := strconv.Atoi(w.log[idx].Headers[workflow.HeaderRecordVersion])
+		tok := w.sim.Tok[name]
+		if (strings.HasPrefix(tok, "st:") || strings.HasPrefix(tok, "ins:")) && uint(evv) > v && !m.filteredAck {
+			m.violate("C04", "newer-event-retried", "newer-event-acknowledged:"+strings.SplitN(tok, ":", 2)[0],
+				fmt.Sprintf("%s acknowledged e%d carrying version %d although the store answered with version %d (a lagging read): the announcement is dropped instead of retried", tok, idx, evv, v))
+		}
+	}
+	delete(m.readVer, name)
 	delete(m.inflight, name)
 	delete(m.advers, name)
 	m.pauseMissedOnAck()
@@ -604,6 +638,16 @@ func (m *Monitors) onClose(name string) {
 	if idx, ok := m.inflight[name]; ok {
 		m.unacked[name] = idx
 		delete(m.inflight, name)
+	}
+}
+
+// onLookupResult: the first answer of the store during a delivery (the handler's read)
+func (m *Monitors) onLookupResult(r *workflow.Record) {
+	if _, ok := m.inflight[m.opRole]; !ok {
+		return
+	}
+	if _, seen := m.readVer[m.opRole]; !seen {
+		m.readVer[m.opRole] = r.Meta.Version
 	}
 }
 
@@ -654,6 +698,7 @@ func (m *Monitors) onSend(topic string, e *workflow.Event) {
 		return
 	}
 	m.sentOK[found] = true
+	m.evWrite[len(w.log)] = m.entryWrite[found]
 	if len(w.env.Faults) > 0 {
 		m.NonTrivial["relay-faulted"] = true
 	}
